@@ -263,7 +263,10 @@ def lin_case(draw):
             "start": draw(st.sampled_from([0.0, 1.0, -2.5, 1e3, 2, 0, -3])),
             "start2": draw(st.sampled_from([0.0, 4.0, -1.0, 5])),
             # sampled signals as stored by loggers: integer counts
-            "signal_dtype": draw(st.sampled_from(["float64", "float64", "float64", "int64", "int32"]))}
+            "signal_dtype": draw(st.sampled_from(["float64", "float64", "float64", "int64", "int32"])),
+            # how the arrays are stored: contiguous, every second element of a longer record (strided view),
+            # or the time axis as integer ticks (whole milliseconds kept in an int64 array)
+            "array_form": draw(st.sampled_from(["plain", "plain", "strided", "int_time", "strided_int_time"]))}
 
 
 def run_lin(case):
@@ -283,6 +286,15 @@ def run_lin(case):
         s1 = np.round(10 * s1).astype(sdt)
         s2 = np.round(10 * s2).astype(sdt)
         a, b = (int(round(a)) if abs(a) >= 1 else 2), (int(round(b)) if abs(b) >= 1 else 3)
+    form = case.get("array_form", "plain")
+    if "int_time" in form:
+        t = np.round(t * 1000.0).astype("int64")          # steps are >= 1e-3 by construction: strictly increasing
+    if "strided" in form:
+        def strided(x):
+            big = np.zeros(2 * len(x) + 1, dtype=x.dtype)
+            big[1::2] = x
+            return big[1::2]
+        t, s1, s2 = strided(t), strided(s1), strided(s2)
     i1 = np.asarray(TI.integrate(t, s1, order, n, 0.0))
     i2 = np.asarray(TI.integrate(t, s2, order, n, 0.0))
     i12 = np.asarray(TI.integrate(t, a * s1 + b * s2, order, n, 0.0))
@@ -309,6 +321,7 @@ def run_lin(case):
         classes.append("integer_typed_signal")
     if isinstance(case["start"], int) or isinstance(case["start2"], int):
         classes.append("integer_start_value")
+    classes.append("arrays_" + form)
     return {"nontrivial": st_ != 0 or (a != 0 and nt > order + 2), "classes": classes}
 
 
